@@ -4,4 +4,6 @@ CONFIG = {
     "C05": {"profiles": ["release", "chk"], "timeout_s": {"quick": 900, "thorough": 7200}},
     "C06": {"timeout_s": {"quick": 900, "thorough": 7200}},
     "C07": {"timeout_s": {"quick": 900, "thorough": 7200}},
+    "C08": {"timeout_s": {"quick": 900, "thorough": 7200}},
+    "C12": {"timeout_s": {"quick": 900, "thorough": 7200}},
 }
